@@ -10,7 +10,10 @@ G: every finished behaviour (calls, circuit, final rho, tr(rho P) for all Pauli 
    add_quantum_error call by call (malformed ones must raise and leave the model unchanged), translate_circuit(...,
    noise_model) + cirq.DensityMatrixSimulator: rho compared entrywise (1e-9); get_backend("cirq", n_shots, noise_model):
    density matrix, sampled frequencies (6 sigma of diag rho), expectation_value_from_prepared_state = tr(rho H) (1e-9),
-   get_expectation_value within 6 sigma; zero-rate == noiseless backend; backend configurations without support /
+   get_expectation_value / get_variance within 6 sigma; zero-rate == noiseless backend; every entry point receives the
+   behaviour's initial_statevector (|0..0> or an entangled exact ring state chosen by Init); n_shots in {1, 10, 100, 2000};
+   circuits with MEASURE: save_mid_circuit_meas / desired_meas_result / one shot + state under noise against the spec's
+   outcome-resolved states rho_d; backend configurations without support /
    without n_shots must refuse a noise model.
 """
 import copy
@@ -40,6 +43,7 @@ RateSet <- %(rates)s
 WithBad = %(bad)s
 WithMeasure = %(meas)s
 Budget = %(budget)d
+Sources = "%(src)s"
 Focus = %(focus)s
 SameGate = %(same)s
 Export = TRUE
@@ -51,6 +55,7 @@ INVARIANT NoNoiseIsNoiseless
 INVARIANT DiagReal
 INVARIANT ModelWellFormed
 INVARIANT ModelIsAcceptedCalls
+INVARIANT CondSumsToRho
 INVARIANT AlphabetOK
 """
 ACTIONS = ["AddError", "EndModel", "AddGate", "EndCircuit", "Step", "Finish"]
@@ -60,8 +65,8 @@ def tf(b):
     return "TRUE" if b else "FALSE"
 
 
-def cfg(N, calls, gates, rates="RatesFull", bad=False, meas=False, budget=20, focus=True, same=False):
-    return CFG % dict(N=N, calls=calls, gates=gates, rates=rates, bad=tf(bad), meas=tf(meas), budget=budget, focus=tf(focus), same=tf(same))
+def cfg(N, calls, gates, rates="RatesFull", bad=False, meas=False, budget=20, focus=True, same=False, src="both"):
+    return CFG % dict(src=src, N=N, calls=calls, gates=gates, rates=rates, bad=tf(bad), meas=tf(meas), budget=budget, focus=tf(focus), same=tf(same))
 
 
 
@@ -120,7 +125,21 @@ def prepare(nr):
     nr["_tw"] = {tuple(x["w"]): to_complex(x["v"], M) for x in nr["tw"]}
     nr["_ops"] = [(o["terms"], to_complex(o["v"], M)) for o in nr["ops"]]
     nr["_psi"] = np.array([to_complex(e, M) for e in nr["psi"]], dtype=complex)
+    nr["_s0"] = np.array([to_complex(e, M) for e in nr["s0"]], dtype=complex)
+    nr["_zero"] = bool(abs(nr["_s0"][0] - 1) < 1e-15)
+    nr["_cond"] = {}
+    for c in nr.get("cond", []):
+        m = np.zeros((d, d), dtype=complex)
+        for cc in range(d):
+            for r in range(d):
+                m[r, cc] = to_complex(c["rho"][cc][r], M)
+        nr["_cond"]["".join(str(x) for x in c["d"])] = m
     return nr
+
+
+def init_vec(nr):
+    """initial_statevector option: None for |0..0> (default), the exact ring state otherwise."""
+    return None if nr["_zero"] else np.array(nr["_s0"], dtype=complex)
 
 
 def strip(nr):
@@ -230,6 +249,10 @@ def band(got, exp, shots, what):
     return None
 
 
+def _cz(c):
+    return c if isinstance(c, complex) else to_complex(c, M)
+
+
 def replay_run(nr, nm, shots, seed, perturb=None):
     """Replay one behaviour with the model nm. Returns list of (aspect, detail)."""
     import cirq
@@ -238,13 +261,14 @@ def replay_run(nr, nm, shots, seed, perturb=None):
     rho = nr["_rho"]
     has_meas = any(g["name"] == "MEASURE" for g in nr["gates"])
     fails = []
+    iv = init_vec(nr)
     with warnings.catch_warnings():
         warnings.simplefilter("ignore")
         # ---- path A: translator + density matrix simulator -------------------------------------------
         if not has_meas:
             try:
                 tc = translate_circuit(circuit_of(nr), "cirq", output_options={"noise_model": nm})
-                dm = cirq.DensityMatrixSimulator(dtype=np.complex128).simulate(tc).final_density_matrix
+                dm = cirq.DensityMatrixSimulator(dtype=np.complex128).simulate(tc, initial_state=(0 if iv is None else iv)).final_density_matrix
                 err = dm_err(dm, rho)
                 if err > TOL:
                     fails.append(("translate:density-matrix", "translate_circuit(noise_model)+DensityMatrixSimulator: rho differs from the "
@@ -255,7 +279,9 @@ def replay_run(nr, nm, shots, seed, perturb=None):
         try:
             sim = get_backend("cirq", n_shots=shots, noise_model=nm)
             np.random.seed(seed)
-            f, dm = sim.simulate(circuit_of(nr), return_statevector=True)
+            f, dm = sim.simulate(circuit_of(nr), return_statevector=True, initial_statevector=iv)
+            np.random.seed(seed + 7)
+            f2, none = sim.simulate(circuit_of(nr), initial_statevector=iv)          # the same entry point without the matrix
         except Exception as e:
             fails.append(("backend:exception", "%s: %s" % (type(e).__name__, str(e)[:200])))
             return fails
@@ -265,6 +291,9 @@ def replay_run(nr, nm, shots, seed, perturb=None):
         bad = band(f, {bitstr(i, n): rho[i, i].real for i in range(2 ** n)}, shots, "frequencies")
         if bad:
             fails.append(("backend:frequencies", bad))
+        bad = band(f2, {bitstr(i, n): rho[i, i].real for i in range(2 ** n)}, shots, "frequencies (no matrix requested)")
+        if bad or none is not None:
+            fails.append(("backend:frequencies", bad or "a state was returned although return_statevector=False"))
         # ---- expectation values -----------------------------------------------------------------------------
         for terms, val in nr["_ops"]:
             op = json_to_qubit_op(terms, M)
@@ -281,26 +310,106 @@ def replay_run(nr, nm, shots, seed, perturb=None):
             if abs(e1 - val.real) > TOL:
                 fails.append(("expectation:prepared-state-own", "expectation_value_from_prepared_state on the backend's density matrix = %r, tr(rho H) = %r" % (e1, val.real)))
             if not has_meas:
-                var = sum(abs(to_complex(t["c"], M)) ** 2 * max(0.0, 1 - abs(nr["_tw"][tuple(t["w"])]) ** 2) for t in terms if any(t["w"]))
+                merged = {}
+                for t in terms:             # for n = 1 two-letter words collapse: duplicates are summed like in the QubitOperator
+                    merged[tuple(t["w"])] = merged.get(tuple(t["w"]), 0) + to_complex(t["c"], M)
+                terms = [{"w": list(w), "c": c} for w, c in merged.items()]
+                var = sum(abs(_cz(t["c"])) ** 2 * max(0.0, 1 - abs(nr["_tw"][tuple(t["w"])]) ** 2) for t in terms if any(t["w"]))
                 try:
                     np.random.seed(seed + 1)
-                    e3 = sim.get_expectation_value(op, circuit_of(nr))
-                    csum = sum(abs(to_complex(t["c"], M)) for t in terms if any(t["w"]))
+                    e3 = sim.get_expectation_value(op, circuit_of(nr), initial_statevector=iv)
+                    csum = sum(abs(_cz(t["c"])) for t in terms if any(t["w"]))
                     if abs(e3 - val.real) > 6 * math.sqrt(var / shots) + 3.0 * csum / shots:
                         fails.append(("expectation:sampled", "get_expectation_value = %r outside 6 sigma (%.4g) of tr(rho H) = %r"
                                       % (e3, math.sqrt(var / shots), val.real)))
+                    # get_variance: sum_j c_j^2 (1 - tr(rho P_j)^2), each term estimated from n_shots samples of the noisy state
+                    np.random.seed(seed + 2)
+                    v3 = sim.get_variance(op, circuit_of(nr), initial_statevector=iv)
+                    slack = 0.0
+                    for t in terms:
+                        if any(t["w"]):
+                            c2, tj = abs(_cz(t["c"])) ** 2, abs(nr["_tw"][tuple(t["w"])])
+                            sg = 6 * math.sqrt(max(0.0, 1 - tj ** 2) / shots) + 3.0 / shots
+                            slack += c2 * (2 * tj * sg + sg ** 2)
+                    if abs(v3 - var) > slack + 1e-9:
+                        fails.append(("variance:sampled", "get_variance = %r, sum c_j^2 (1 - tr(rho P_j)^2) = %r (allowed deviation %.4g)" % (v3, var, slack)))
                 except Exception as e:
                     fails.append(("expectation:exception", "get_expectation_value: %s: %s" % (type(e).__name__, str(e)[:200])))
         # ---- zero-rate model == noiseless simulation -----------------------------------------------------------
         if not nr["noisy"] and nr["pure"]:
             try:
-                _, sv = get_backend("cirq").simulate(circuit_of(nr), return_statevector=True)
+                _, sv = get_backend("cirq").simulate(circuit_of(nr), return_statevector=True, initial_statevector=iv)
                 sv = np.array(sv, dtype=complex).ravel()
                 err = dm_err(np.outer(sv, sv.conj()), np.array(dm, dtype=complex))
                 if err > TOL:
                     fails.append(("zero-noise", "density matrix under a zero-rate / non-matching model differs from the noiseless statevector by %.3g" % err))
             except Exception as e:
                 fails.append(("zero-noise:exception", "%s: %s" % (type(e).__name__, str(e)[:200])))
+        # ---- measurement options combined with a noise model (circuits with MEASURE gates) --------------------------
+        if has_meas and nr["_cond"]:
+            fails += measure_options(nr, nm, iv, seed)
+    return fails
+
+
+def measure_options(nr, nm, iv, seed):
+    """desired_meas_result / save_mid_circuit_meas under noise: the outcome-resolved states rho_d of the spec (unnormalised,
+    tr rho_d = probability of d)."""
+    from tangelo.linq import get_backend
+    n = nr["n"]
+    fails = []
+    probs = {d: float(np.trace(m).real) for d, m in nr["_cond"].items()}
+    joint = {d + bitstr(i, n): m[i, i].real for d, m in nr["_cond"].items() for i in range(2 ** n)}
+    # (1) all shots with saved mid-circuit measurements
+    shots = 1000
+    try:
+        sim = get_backend("cirq", n_shots=shots, noise_model=nm)
+        np.random.seed(seed + 11)
+        f, _ = sim.simulate(circuit_of(nr), save_mid_circuit_meas=True, initial_statevector=iv)
+        for what, got, exp in (("all_frequencies", sim.all_frequencies, joint), ("mid_circuit_meas_freqs", sim.mid_circuit_meas_freqs, probs),
+                               ("frequencies", f, {bitstr(i, n): nr["_rho"][i, i].real for i in range(2 ** n)})):
+            bad = band(dict(got), exp, shots, what)
+            if bad:
+                fails.append(("measure:save_mid", bad))
+    except Exception as e:
+        fails.append(("measure:exception", "save_mid_circuit_meas with noise: %s: %s" % (type(e).__name__, str(e)[:200])))
+    # (2) requested outcome string: the returned density matrix is the normalised rho_d
+    d = max(probs, key=lambda x: (probs[x], x))
+    shots = 300
+    for sv in (True, False):
+        try:
+            sim = get_backend("cirq", n_shots=shots, noise_model=nm)
+            np.random.seed(seed + 12 + sv)
+            f, dm = sim.simulate(circuit_of(nr), desired_meas_result=d, return_statevector=sv, initial_statevector=iv)
+        except Exception as e:
+            fails.append(("measure:exception", "desired_meas_result=%r with noise: %s: %s" % (d, type(e).__name__, str(e)[:200])))
+            continue
+        cond = nr["_cond"][d] / probs[d]
+        allf = dict(sim.all_frequencies)
+        n_succ = int(round(shots * sum(v for k, v in allf.items() if k.startswith(d))))
+        if n_succ == 0:
+            continue
+        bad = band(dict(f), {bitstr(i, n): cond[i, i].real for i in range(2 ** n)}, n_succ, "frequencies given %r" % d)
+        if bad:
+            fails.append(("measure:desired", bad))
+        if sv:
+            err = dm_err(dm, cond)
+            if err > TOL:
+                fails.append(("measure:desired-density-matrix", "density matrix returned for desired_meas_result=%r differs from the normalised "
+                              "outcome-resolved state by %.3g" % (d, err)))
+    # (3) one shot with saved measurements and the state
+    try:
+        sim = get_backend("cirq", n_shots=1, noise_model=nm)
+        np.random.seed(seed + 15)
+        f, dm = sim.simulate(circuit_of(nr), save_mid_circuit_meas=True, return_statevector=True, initial_statevector=iv)
+        keys = list(sim.mid_circuit_meas_freqs)
+        if len(keys) != 1 or probs.get(keys[0], 0.0) < 1e-12:
+            fails.append(("measure:oneshot", "one shot reported the outcome strings %s, live ones are %s" % (keys, sorted(k for k, v in probs.items() if v > 1e-12))))
+        else:
+            err = dm_err(dm, nr["_cond"][keys[0]] / probs[keys[0]])
+            if err > TOL:
+                fails.append(("measure:oneshot", "density matrix after the sampled outcomes %r differs from the outcome-resolved state by %.3g" % (keys[0], err)))
+    except Exception as e:
+        fails.append(("measure:exception", "one shot with noise: %s: %s" % (type(e).__name__, str(e)[:200])))
     return fails
 
 
@@ -453,9 +562,14 @@ def run(chk):
             good = [x for x in nrs if all(c["verdict"] == "accept" for c in x["calls"])]
             nrs = rng.sample(bad, min(len(bad), keep // 2)) + rng.sample(good, min(len(good), keep // 2))
         for nr in nrs:
-            replay_behaviour(chk, nr, shots, rng.randrange(2 ** 31), name)
+            # n_shots is an option too: every fourth behaviour runs with 1, 10 or 100 shots (support / coarse bands)
+            n_done = stats["behaviours"]
+            sh = shots if n_done % 4 else (1, 10, 100)[(n_done // 4) % 3]
+            replay_behaviour(chk, nr, sh, rng.randrange(2 ** 31), name)
             stats["behaviours"] += 1
             stats["noisy"] += bool(nr["noisy"])
+            stats["generic_initial_statevector"] = stats.get("generic_initial_statevector", 0) + (not nr["_zero"])
+            stats["measure_options_under_noise"] = stats.get("measure_options_under_noise", 0) + bool(nr["_cond"])
             stats["both_types_on_one_gate"] += any(len(m["errs"]) == 2 for m in nr["model"])
             stats["malformed_calls"] += any(c["verdict"] != "accept" for c in nr["calls"])
             stats["multi_qubit_noisy"] += any(len(g["t"]) + len(g["c"]) >= 3 and g["name"] in {m["gate"] for m in nr["model"]} for g in nr["gates"])
